@@ -2,12 +2,50 @@
 from .core import core_check
 
 
+def _disabled_sessions(chk):
+    """the second half of C06: when the session is not active (disable flag, CI, xdist, xfail) snapshot(v) is v"""
+    from .. import config_replay, identity_replay, pool, session_driver, tlc
+    from ..checklib import MachineryError
+    stride = 9000 if chk.quick else 600
+    res = tlc.run_tlc("MC_Config", "Config.cfg", overrides={"Mode": "emit", "Stride": stride, "Offset": chk.seed % stride}, timeout=600)
+    chk.add_tlc(res, "emit Config (for the identity clause)")
+    try:
+        cases = config_replay.load_cases(res.out_dir, chk.seed)
+    finally:
+        tlc.cleanup(res)
+    # keep the configurations where the identity clause says something, and a few active ones as control
+    cases = [c for c in cases if not c["error"]]
+    inactive = [c for c in cases if not c["active"]]
+    active = [c for c in cases if c["active"]][: max(20, len(inactive) // 4)]
+    cases = inactive + active
+    session_driver.preload()
+    results = pool.parallel_map(identity_replay._worker, [(c, chk.seed) for c in pool.chunks(cases, 4)])
+    by_id = {c["id"]: c for c in cases}
+    errors = 0
+    for out in results:
+        for r in out:
+            if "error" in r:
+                errors += 1
+                print("driver error:", r["error"])
+                continue
+            c = by_id[r["id"]]
+            chk.count(1, "identity|" + r["id"] if not c["active"] else None)
+            chk.validated(1)
+            for m in r["mism"]:
+                chk.mismatch(m["clause"], {"clause": m["clause"], **{k: v for k, v in m["detail"].items() if k in ("test", "why_inactive")}},
+                             {"kind": "identity-session", "case": c, "mismatch": m, "session": r["info"]}, props=m["props"])
+    if errors:
+        raise MachineryError("%d identity sessions crashed" % errors)
+
+
 def run():
-    chk = core_check("C06", f_filter=lambda F: F == [], quick_keep=3, thorough_keep=1)
+    chk = core_check("C06", f_filter=lambda F: F == [], quick_keep=3, thorough_keep=1, extra=_disabled_sessions)
     if isinstance(chk, int):
         return chk
     chk.assumptions += ["values are drawn from pools of leaf types (int, str, bytes, float, bool, None)",
-                        "the in-process driver performs the steps of Example.run_inline (cross-checked by C19)"]
+                        "the in-process driver performs the steps of Example.run_inline (cross-checked by C19)",
+                        "disabled sessions: real pytest sessions for configurations of spec/MC_Config.tla whose Active(cfg) is "
+                        "FALSE (disable flag, CI variables, xdist) with ordinary tests before / after xfail-marked tests"]
     return chk.finish(
         rule="TLC enumerates (operation, previous source, program of <=2 statements) exhaustively; every emitted "
              "run with no approved category is concretised (seeded atom->value binding, operand order, placement) "
